@@ -562,6 +562,12 @@ func (g *c03Gen) stmt(sc *c03Scope) string {
 			switch op := g.n(0, 7, "slop"); {
 			case op <= 2 && p.Asg:
 				e, c, _ := g.rv(sc, p.T.E, "")
+				if e == "nil" && p.T.E.K == "ptr" && p.T.E.E.K == "arr" {
+					// append(x, nil) with x of type []*[N]T makes the preprocessor
+					// panic (constTypeExpr type assertion); not this property's
+					// business, so the generator steps around it
+					continue
+				}
 				wr()
 				return c03Guard(c03Conds(p.Conds, c), p.X+" = append("+p.X+", "+e+")")
 			case op == 3 && p.Asg:
